@@ -234,6 +234,7 @@ class Runner:
     def heal(self):
         c = self.c
         c.net.down.clear()
+        c.net.down |= getattr(c, 'dead_links', set())      # a lost process stays unreachable
         c.net.fail_after_delivery.clear()
         for _ in range(30):
             if self.sync() and c.quiescent():
